@@ -623,7 +623,8 @@ pub fn mentions_param_rule(cx: &Cx, rep: &mut Report) {
         let lead_none = st.cond.iter().find(|(a, _)| a.contains("leading_colon")).map(|(a, b)| if a.contains("is_none") { *b } else { !*b });
         let contains = st.cond.iter().find(|(a, _)| a.contains(".contains")).map(|(a, b)| (a.clone(), *b));
         if sets {
-            let first_seg = contains.as_ref().map(|(a, _)| a.contains(".next") || a.contains("segments")).unwrap_or(false);
+            // the tested identifier is that of the FIRST segment
+            let first_seg = contains.as_ref().map(|(a, _)| a.contains("segments.next") || a.contains("segments.first") || a.contains("?.next(") || a.contains("?.first(")).unwrap_or(false) && !contains.as_ref().map(|(a, _)| a.contains(".last")).unwrap_or(false);
             if lead_none == Some(true) && contains.as_ref().map(|c| c.1) == Some(true) && first_seg { sets_true_ok = true; } else { bad_set = true; }
         } else if lead_none == Some(true) && contains.as_ref().map(|c| c.1) == Some(true) { bad_set = true; }
         if !ns.iter().any(|n| n.starts_with(&format!("extcall {}", vf.sig.ident))) { all_descend = false; }
@@ -743,6 +744,25 @@ pub fn op_tables_rule(cx: &Cx, rep: &mut Report) {
     rep.unanalysable("operator tables", &ev.unsupported.borrow());
 }
 
+/// constant indexing of a symbolic collection is in range only under an established length: every `place[i]` event needs
+/// a true `?len(place)==n` (n > i) on its path.  Returns the unguarded sites.
+pub fn unguarded_indexing(outs: &Outs) -> Vec<String> {
+    let mut bad = Vec::new();
+    for (st, _) in outs {
+        for e in &st.events {
+            if let Event::Index { place, idx, site } = e {
+                let Ok(i) = idx.parse::<usize>() else { continue };
+                if !place.starts_with('$') { continue; }
+                let pl = place.trim_start_matches('$');
+                let guarded = st.cond.iter().any(|(a, b)| *b && a.starts_with(&format!("?len({pl})==")) && a.rsplit("==").next().and_then(|n| n.parse::<usize>().ok()).map(|n| n > i).unwrap_or(false));
+                if !guarded { bad.push(format!("{pl}[{i}] at {site}")); }
+            }
+        }
+    }
+    bad.sort(); bad.dedup();
+    bad
+}
+
 /// DM-change_owned, DM-to_ref_elem, DM-to_rhs: the helpers of the impl-item builder
 pub fn impl_helpers_rule(cx: &Cx, rep: &mut Report) {
     let ix = &cx.ix;
@@ -789,9 +809,11 @@ pub fn impl_helpers_rule(cx: &Cx, rep: &mut Report) {
         for (st, fl) in &outs {
             let Flow::Val(v) = fl else { ok = false; continue };
             let one_type_arg = st.cond.iter().any(|(a, b)| *b && a.contains("==1")) && st.cond.iter().any(|(a, b)| *b && a.ends_with(" is Type")) && st.cond.iter().any(|(a, b)| *b && a.ends_with(" is AngleBracketed"));
-            if one_type_arg { saw_arg = true; if !v.any(&|x| matches!(x, Val::Opaque { what, deps } if what == "expand_self" && deps.iter().any(|d| matches!(d, Val::Sym { path, .. } if path == "self_ty")))) { ok = false; } }
+            if one_type_arg { saw_arg = true; if !v.any(&|x| matches!(x, Val::Opaque { what, deps } if what == "expand_self" && deps.iter().any(|d| matches!(d, Val::Sym { path, .. } if path == "self_ty")) && deps.first().map(|d| d.any(&|y| matches!(y, Val::Sym { path, .. } if path.contains("args[0]")))).unwrap_or(false))) { ok = false; } }
             else { saw_default = true; if !matches!(v, Val::Sym { path, .. } if path == "self_ty") && !v.any(&|x| matches!(x, Val::Sym { path, .. } if path == "self_ty")) { ok = false; } }
         }
+        let ung = unguarded_indexing(&outs);
+        rep.check(ung.is_empty(), "DM-to_rhs", &f.qual, "index-in-range", &format!("an argument is indexed without its position being covered by the checked length: {ung:?}"), &site(&f), json!({}));
         rep.check(ok && saw_arg && saw_default, "DM-to_rhs", &f.qual, "rhs-default", "Rhs is not: the trait's single type argument (with Self expanded), else the Self type", &site(&f), json!({}));
     }
     rep.unanalysable("impl helpers", &ev.unsupported.borrow());
